@@ -140,7 +140,7 @@ static void grid_item (long it, void *arg)
 }
 
 /* ------------------------------------------------------------------ args mode */
-typedef struct { int codec, role; uint32_t k, r, len, m, N1; int seed; int corruption; } ac_t;
+typedef struct { int codec, role; uint32_t k, r, len, m, N1; int seed; int corruption; int moment; } ac_t;	/* moment: 0 right after configuration, 1 after some valid use, 2 the corrupted call made twice */
 static ac_t *AC; static long NAC;
 static const char *CORR[] = {
 	"set_fec_parameters(NULL session)", "set_fec_parameters(NULL params)", "set_callback_functions(NULL session)", "build(NULL session)", "dws(NULL session)", "sas(NULL session)",
@@ -166,12 +166,28 @@ static void args_item (long it, void *arg)
 	UINT32 val = 0;
 	(void) arg;
 	vf_slot_set_prop ("C09");
-	snprintf (g_case, sizeof g_case, "args codec=%d role=%d k=%u r=%u len=%u m=%u N1=%u seed=%d corruption=%d (%s)", a->codec, a->role, a->k, a->r, a->len, a->m, a->N1, a->seed, a->corruption, CORR[a->corruption]);
+	snprintf (g_case, sizeof g_case, "args codec=%d role=%d k=%u r=%u len=%u m=%u N1=%u seed=%d corruption=%d moment=%d (%s)", a->codec, a->role, a->k, a->r, a->len, a->m, a->N1, a->seed, a->corruption, a->moment, CORR[a->corruption]);
 	memcpy (vf_slot (), g_case, sizeof g_case);
 	memset (dummy, 7, sizeof dummy);
 	for (i = 0; i < n; i++) { uint32_t j; sym[i] = malloc (a->len); for (j = 0; j < a->len; j++) sym[i][j] = i < k ? (unsigned char) (vf_mix64 ((uint64_t) i * 77 + j) >> 5) : 0; tab[i] = sym[i]; }
 	s = open_tuple (&t, &st);
 	if (!s || st != OF_STATUS_OK) { viol ("kind=valid-configuration-rejected"); goto out; }
+	{	/* valid control-parameter queries before the corrupted call (and again after it): OK, same answers */
+		UINT32 mk = 0, mn = 0;
+		if (of_get_control_parameter (s, OF_CTRL_GET_MAX_K, &mk, sizeof mk) != OF_STATUS_OK || of_get_control_parameter (s, OF_CTRL_GET_MAX_N, &mn, sizeof mn) != OF_STATUS_OK) viol ("kind=valid-control-query-fails|moment=before");
+		val = mk * 65537u + mn;
+	}
+	if (a->moment == 1) {	/* some valid use first */
+		if (a->role & OF_ENCODER) { for (i = k; i < n; i++) if (of_build_repair_symbol (s, tab, i) != OF_STATUS_OK) { viol ("kind=valid-build-fails"); break; } }	/* (all of them: the codeword must exist before anything is submitted) */
+		else {
+			tup_t te = t; of_session_t *e; te.role = OF_ENCODER; e = open_tuple (&te, &st);
+			if (e) { for (i = k; i < n; i++) of_build_repair_symbol (e, tab, i); of_release_codec_instance (e); }
+		}
+		if (a->role & OF_DECODER) { if (of_decode_with_new_symbol (s, sym[n - 1], n - 1) != OF_STATUS_OK) viol ("kind=valid-dws-fails"); }
+	}
+	{
+	uint32_t keepval = val; int rep, nrep = a->moment == 2 ? 2 : 1;
+	for (rep = 0; rep < nrep; rep++)
 	if (a->corruption == 0 || a->corruption == 1 || a->corruption == 2 || a->corruption == 10 || a->corruption == 25 || a->corruption == 26) applicable = 0;	/* not demanded by the property: not exercised */
 	else switch (a->corruption) {
 	case 0: { of_parameters_t p = {k, a->r, a->len}; cst = of_set_fec_parameters (NULL, &p); break; }
@@ -199,6 +215,12 @@ static void args_item (long it, void *arg)
 	case 24: if (a->role != OF_ENCODER) { applicable = 0; break; } cst = of_get_source_symbols_tab (s, src); break;
 	case 25: cst = of_get_control_parameter (s, 77777, &val, sizeof val); break;
 	case 26: cst = of_get_control_parameter (s, OF_CTRL_GET_MAX_K, &val, 1); break;
+	}
+	{
+		UINT32 mk = 0, mn = 0;
+		if (of_get_control_parameter (s, OF_CTRL_GET_MAX_K, &mk, sizeof mk) != OF_STATUS_OK || of_get_control_parameter (s, OF_CTRL_GET_MAX_N, &mn, sizeof mn) != OF_STATUS_OK) viol ("kind=valid-control-query-fails|moment=after");
+		else if (mk * 65537u + mn != keepval) viol ("kind=control-answers-change-after-corrupted-call");
+	}
 	}
 	vf_stat_add (st_trans, 1);
 	if (applicable) {
@@ -240,7 +262,8 @@ static void item_replay (long it, void *arg)
 		t.seed = seed; TU = &t; NTU = 1; grid_item (0, NULL);
 	} else if (!strncmp (cs, "args ", 5)) {
 		ac_t a;
-		if (sscanf (cs, "args codec=%d role=%d k=%u r=%u len=%u m=%u N1=%u seed=%d corruption=%d", &a.codec, &a.role, &a.k, &a.r, &a.len, &a.m, &a.N1, &a.seed, &a.corruption) != 9) return;
+		a.moment = 0;
+		if (sscanf (cs, "args codec=%d role=%d k=%u r=%u len=%u m=%u N1=%u seed=%d corruption=%d moment=%d", &a.codec, &a.role, &a.k, &a.r, &a.len, &a.m, &a.N1, &a.seed, &a.corruption, &a.moment) < 9) return;
 		AC = &a; NAC = 1; args_item (0, NULL);
 	}
 }
@@ -332,9 +355,9 @@ int main (int argc, char **argv)
 			{1, 3, 2, 8, 8, 0, 0}, {1, 10, 6, 5, 8, 0, 0}, {2, 3, 2, 8, 8, 0, 0}, {2, 7, 8, 6, 4, 0, 0}, {2, 10, 6, 5, 8, 0, 0}, {3, 4, 4, 8, 0, 3, 1}, {3, 10, 6, 5, 0, 4, 2}, {3, 20, 10, 16, 0, 5, 7},
 		};
 		static const int roles[] = {OF_ENCODER, OF_DECODER, OF_ENCODER_AND_DECODER};
-		AC = malloc (sizeof (ac_t) * 8 * 3 * NCORR);
-		for (a = 0; a < 8; a++) for (role = 0; role < 3; role++) for (c = 0; c < NCORR; c++) {
-			ac_t x = {base[a].codec, roles[role], base[a].k, base[a].r, base[a].len, base[a].m, base[a].N1, base[a].seed, c};
+		AC = malloc (sizeof (ac_t) * 8 * 3 * NCORR * 3);
+		for (d = 0; d < 3; d++) for (a = 0; a < 8; a++) for (role = 0; role < 3; role++) for (c = 0; c < NCORR; c++) {
+			ac_t x = {base[a].codec, roles[role], base[a].k, base[a].r, base[a].len, base[a].m, base[a].N1, base[a].seed, c, d};
 			AC[NAC++] = x;
 		}
 		vf_note ("args: %ld (session, corruption) pairs", NAC);
